@@ -84,8 +84,11 @@ def strace_run(cmd, log=None, inject=None, timeout=60, follow=False):
     """Without -f only the initial (main) thread is traced, so an injection can only hit the main thread, which
     the helpers pin their work to (runtime.LockOSThread in init)."""
     a = ["strace"] + (["-f"] if follow else []) + ["-o", log or "/dev/null", "-e", "trace=" + TRACE]
-    if inject:
+    if isinstance(inject, tuple):
         a += ["-e", "inject=%s:signal=SIGKILL:when=%d" % inject]
+    elif inject:            # list of raw inject expressions, e.g. "write:error=ENOSPC:when=3+"
+        for x in inject:
+            a += ["-e", "inject=" + x]
     try:
         p = subprocess.run(a + cmd, stdout=subprocess.PIPE, stderr=subprocess.STDOUT, timeout=timeout, text=True)
         return p.returncode, p.stdout
